@@ -228,6 +228,9 @@ func init() {
 	lockEv := func(name string) intrinsicFn {
 		return func(p *Path, fn *ssa.Function, args []Value) Value {
 			if p.lockEvents {
+				if p.guard != nil {
+					panic(mergeAbort{"lock event in merge region"})
+				}
 				p.events = append(p.events, Event{Name: name, Args: args[:1]})
 			}
 			return nil
@@ -288,6 +291,9 @@ func init() {
 			ptr := args[0].(*PtrV)
 			p.nilCheck(ptr, "atomic add through nil")
 			if p.lockEvents {
+				if p.guard != nil {
+					panic(mergeAbort{"lock event in merge region"})
+				}
 				p.events = append(p.events, Event{Name: "atomic.add", Args: args[:1]})
 			}
 			old := p.load(ptr, fn.Signature.Results().At(0).Type()).(*Term)
